@@ -27,7 +27,8 @@ Open Scope N_scope.
 (* ---------------------------------------------------------------- syntax *)
 Inductive fkind :=
 | KRaw (legacy_type : bool)     (* RAW field; type token "c" (legacy) or "UINT8" *)
-| KBit (input : str).           (* derived field with one input field code (BIT) *)
+| KBit (input : str)            (* derived field with one input field code (BIT) *)
+| KLinterp (input table : str). (* LINTERP: input field code and table file token *)
 
 Record incl := { in_dir : list str; in_px : str; in_sx : str }.
 
@@ -125,13 +126,14 @@ Record frag := {
   f_dir : list str        (* subdirectory path below the dirfile *)
 }.
 
-Inductive ekind := EIndex | ERaw (filebase : str) | EBit (input : str) | EAlias (target : str).
+Inductive ekind := EIndex | ERaw (filebase : str) (legacy : bool) | EBit (input : str)
+  | ELinterp (input table : str) | EAlias (target : str).
 Record entry := { e_name : str; e_frag : nat; e_kind : ekind; e_hidden : bool }.
 
 Definition index_entry : entry := {| e_name := sINDEX; e_frag := 0; e_kind := EIndex; e_hidden := false |}.
 
 Definition is_alias (e : entry) : bool := match e_kind e with EAlias _ => true | _ => false end.
-Definition is_raw (e : entry) : bool := match e_kind e with ERaw _ => true | _ => false end.
+Definition is_raw (e : entry) : bool := match e_kind e with ERaw _ _ => true | _ => false end.
 
 (* _GD_FindField (common.c:204): exact match after dropping one initial dot *)
 Definition drop_dot (code : str) : str :=
@@ -236,11 +238,15 @@ Section EntryOps.
              | None =>
                  bind (set_field None nm) (fun field =>
                  if (if legacy then ped && negb (std <? 8) else ped && (std <? 5)) then Err
-                 else bind (insert_entry ents field (ERaw name)) (fun ents' => Ok (ents', true)))
+                 else bind (insert_entry ents field (ERaw name legacy)) (fun ents' => Ok (ents', true)))
              end
          | KBit input =>
              bind (set_field P nm) (fun field =>
              bind (insert_entry ents field (EBit (codef input))) (fun ents' => Ok (ents', false)))
+         | KLinterp input table =>
+             (* _GD_ParseLinterp: the table token is stored as written *)
+             bind (set_field P nm) (fun field =>
+             bind (insert_entry ents field (ELinterp (codef input) table)) (fun ents' => Ok (ents', false)))
          end).
 
   Definition add_alias (ents : list entry) (name target : str) : res (list entry) :=
@@ -698,7 +704,7 @@ Fixpoint line_feat (fname fcode : str -> bool) (fincl : str -> bool) (l : line) 
   match l with
   | LReference c => fcode c
   | LHidden n => name_feat fname n
-  | LField n k => name_feat fname n || match k with KBit i => fcode i | KRaw _ => false end
+  | LField n k => name_feat fname n || match k with KBit i => fcode i | KLinterp i _ => fcode i | KRaw _ => false end
   | LAlias n t => name_feat fname n || fcode t
   | LInclude a sub =>
       fincl (in_px a) ||
@@ -728,7 +734,7 @@ Definition okl (l : line) : bool :=
   match l with
   | LReference c => plain_code c
   | LHidden n => name_ok n
-  | LField n k => name_ok n && match k with KBit i => plain_code i | KRaw _ => true end
+  | LField n k => name_ok n && match k with KBit i => plain_code i | KLinterp i _ => plain_code i | KRaw _ => true end
   | LAlias n t => name_ok n && plain_code t
   | LInclude a _ => negb (dotns_tok (in_px a))
   | _ => true
